@@ -132,6 +132,9 @@ def seed_forms(rng, g, vec, form=None):
     def one(v):
         if form == 'dict':
             items = [[i, x] for i, x in enumerate(v) if x >= 0]
+            if rng.random() < 0.3:
+                # "negative values are ignored": a dict may also list nodes explicitly marked as unlabelled
+                items += [[i, rng.choice([-1, -1, -3])] for i, x in enumerate(v) if x < 0 and rng.random() < 0.5]
             rng.shuffle(items)
             return {'dict': items}
         return {form: list(v)}
@@ -766,7 +769,7 @@ def run_pagerank(ctx, impl, mev, rng, nmax, count):
         check_common(ctx, 'PageRankClassifier', g, vec, o, args, f, seeds_fixed=False)
         if o.get('scores') is not None:
             sc = o['scores']
-            if o['seeds_vector'] != vec:
+            if [x if x >= 0 else -1 for x in o['seeds_vector']] != vec:      # any negative entry means "no label"
                 ctx.violation('PageRankClassifier', 'seed vector built by get_adjacency_values differs from the given seeds',
                               case=args, kind='seed_vector', expected=vec, observed=o['seeds_vector'], **f)
                 continue
